@@ -42,6 +42,16 @@ CLAIMS = {
                 note='@if/@each/@while and define_multi are evaluator code: not covered. Numeric::new/Value abstracted as uninterpreted constructors in Verus.',
                 tech='Verus on extracted ValueRange + Kani harnesses + K-snippet of SrcRange::evaluate',
                 ref='DESIGN.md §5 C17, §11'),
+    'C16': dict(cat='proof',
+                text='The flag logic of variable assignment — Scope::set_variable after the `module.name` case, extracted from /repo each run with the scope state replaced by a probe: `!default` assigns only when the variable is undefined or null, `!global` always writes the global, otherwise the write goes to the current scope, and there is exactly one write or none — for all 12 combinations of (existing value, !default, !global): loop-free, complete.',
+                note='Known finding: an assignment without flags never updates a variable of an enclosing local scope (`a { $x: 1; b { $x: 2; } c: $x }` gives c: 1). The scope chain itself (Mutex<BTreeMap>, define_global\'s walk to the root), which blocks get their own scope (style rules, @each/@for, mixin/function parameters, top-level flow control) and module variables are not covered.',
+                tech='Kani proof harness on a K-snippet (range of Scope::set_variable extracted each run)',
+                ref='DESIGN.md §11'),
+    'C36': dict(cat='proof',
+                text='Which loud comments reach the output: the Item::Comment arm of output::transform::handle_item, extracted from /repo each run with the scope format and the destination replaced by probes — expanded style emits every loud comment exactly once, compressed style keeps exactly those starting with `/*!` (loop-free, both styles, both kinds: complete).',
+                note='That silent comments never reach the evaluator (parser), the evaluation of interpolation inside comments, their order relative to other items and Comment::write (re-indentation) are not covered.',
+                tech='Kani proof harnesses on a K-snippet (range of handle_item extracted each run)',
+                ref='DESIGN.md §11'),
     'C18': dict(cat='other',
                 text='The argument binding of user-defined functions and mixins: the body of FormalArgs::eval, extracted from /repo each run, with the sub-scope replaced by a binder that records every definition in order and the evaluation of a default replaced by a recorded call; css::CallArgs is instantiated at a cheap value type, the bodies of its methods take_positional / only_named / check_no_named / len are extracted as well, OrderMap is the real generic one. Checked on seven call shapes: positional by position, then named by name, then defaults left to right (a default is evaluated only when needed, after the parameters before it are bound), too many / unknown / missing arguments are errors, extras go to the rest parameter; `-` and `_` are equivalent in names (bounded).',
                 note='Evaluation of the argument expressions, the callee scope itself (defaults "in the callee scope", definition-site vs call-site scoping), @return, @content / using, meta.keywords and duplicated named arguments (rejected by the parser) are not covered. Bounded: nothing counted as proved.',
@@ -89,7 +99,6 @@ NA = {
     'C09': 'needs the nom CSS parser and the printer (fmt): neither verifier can process nom combinators',
     'C10': 'Display for Formatted<Number> is f64 digit extraction through fmt and log10: Kani cannot run fmt and over-approximates log10; Verus has no f64 arithmetic (one sub-obligation is proved under C01)',
     'C15': 'operator precedence is the layering of nom parser functions',
-    'C16': 'scope chain of Mutex<BTreeMap> walked by the recursive evaluator: contract expressible, no installed back end can execute it',
     'C19': 'recursive Box/Vec/String selector algebra written with flat_map/retain/closures, and the selector parser: outside Verus\' subset, only trivially small instances in Kani',
     'C20': 'tree transformation through &mut dyn CssDestination objects whose Drop impls have the side effects in question; driven by the evaluator',
     'C21': 'same as C20: bubbling is implemented in Drop impls of CssDestination objects driven by the evaluator',
@@ -101,7 +110,6 @@ NA = {
     'C33': 'color text is produced by write! (unreachable) and a LazyLock BTreeMap of names; the reachable half (try_bytes) is proved under C31',
     'C34': 'a relation between two entries of the LazyLock function tables (global and module forms), whose construction runs the parser: Kani cannot compile the tables, Verus cannot process them',
     'C35': 'parser/evaluator property',
-    'C36': 'evaluator/module-graph property',
     'C37': 'module-graph property',
     'C38': 'each entry point\'s body is the expression the statement names; there is no obligation for a verifier and running transform is out of reach',
     'C39': 'error propagation through generic Loader, ? in the evaluator and format!-built names; a nondeterministic-loader harness needs Context (Kani ICE) and format!',
